@@ -65,7 +65,7 @@ class Sess:
         return (self.name, self.lines)
 
     # -- connection
-    def connect(self, fields=(('cid', b'c'),), connack_ps=(), reason=0, run=True, cuts=None, via_auth=False):
+    def connect(self, fields=(('cid', b'c'),), connack_ps=(), reason=0, run=True, cuts=None, via_auth=False, sp=0):
         self.add('SETUP')
         if via_auth:
             # extended authentication: CONNECT with a method, AUTH challenge, authorize(), and only then the CONNACK
@@ -76,7 +76,7 @@ class Sess:
             self.add('AUTHORIZE r=24 am=6d ad=64')
         else:
             self.add(('CONNECT ' + m.kvs(fields)).strip())
-        self.add(m.feed(m.connack(0, reason, connack_ps), cuts))
+        self.add(m.feed(m.connack(sp, reason, connack_ps), cuts))
         if run:
             self.add('RUN')
 
@@ -261,6 +261,15 @@ def fam_C01(rng, tier):
             s.connect()
             s.publish(0, fields=[('p', b'z' * (tg - 4))], topic=b'a')
             out.append(s.script())
+    # publish by topic alias: a ZERO-LENGTH topic name is a topic name (only an absent one is a missing mandatory part)
+    s = Sess('c01-alias')
+    s.connect()
+    s.publish(0, fields=[('ta', 7), ('p', b'hi')], topic=b'first/name')
+    s.publish(0, fields=[('ta', 7), ('p', b'hi')], topic=b'')
+    s.publish(1, fields=[('ta', 7)], topic=b'')
+    s.publish(2, fields=[('ta', 1), ('p', b''), ('up', (b'', b''))], topic=b'')
+    s.publish(0, topic=None)                      # no topic at all: refused
+    out.append(s.script())
     # AUTHORIZE: all subsets
     i = 0
     for r in [None, 0, 24, 25]:
@@ -590,6 +599,18 @@ def fam_C03(rng, tier):
         for k in range(4 if tier == 'quick' else 30):
             variants.append((f'rand{k}', None, lambda d: sorted(rng.sample(range(1, len(d)), min(rng.choice([2, 5, 17]), len(d) - 1)))))
         group(f'c03-g{gi}', mk, variants)
+    # remaining lengths of 2, 3 and 4 bytes (padded encodings, accepted by the decoder) cut after every one of their bytes,
+    # alone and behind another packet in the same read
+    for w in [2, 3, 4]:
+        def mkw(sid, w=w):
+            return [m.publish(b'a', b'first', 0, None, 0, 0, [(11, sid)]),
+                    m.publish(b'a', bytes([w] * 40), 1, 5, 0, 0, [(11, sid)], rl_width=w), m.pingresp()]
+        n0 = len(m.publish(b'a', b'first', 0, None, 0, 0, [(11, 1)]))
+        variants = [('whole', None, 'perpacket')]
+        for c in range(1, 8):
+            variants.append((f'cutA{c}', None, (lambda c: (lambda d: [n0 + c]))(c)))
+            variants.append((f'cutB{c}', None, (lambda c: (lambda d: [n0, n0 + c]))(c)))
+        group(f'c03-rlw{w}', mkw, variants)
     # the hand-off from connect() to run(): bytes of the packets that FOLLOW the CONNACK arrive in the same read(s) as
     # the CONNACK (a broker resuming a session sends CONNACK and queued packets in one segment), before run() is called
     ca = m.connack(0, 0, [])
@@ -756,6 +777,47 @@ def fam_C04(rng, tier):
             s.feed(pkt)
             s.feed(m.pingresp())
             out.append(s.script())
+    # (3b) correctly FRAMED packets (fixed header, remaining length and property length consistent) whose LAST property is
+    # truncated from the inside: a length prefix inside the property data swallows everything up to the end of the property
+    # data, leaving 0 or 1 byte for what should follow (user property: the value's length prefix; string / binary properties)
+    def inner(kind, extra):
+        if kind == 'userprop':          # 0x26, key length, key ... then `extra` bytes where the 2-byte value length should be
+            return bytes([0x26, 0, 3]) + b'abc' + bytes(extra)
+        if kind == 'userprop-val':      # complete key, value length announces more than is there
+            return bytes([0x26, 0, 1]) + b'k' + bytes([0, 9]) + b'v' * extra
+        if kind == 'reason-string':     # 0x1f, length announces more than is there
+            return bytes([0x1f, 0, 9]) + b'r' * extra
+        return bytes([0x26]) + bytes(extra)      # identifier alone, then 0 / 1 byte
+    crafted = []
+    for kind in ['userprop', 'userprop-val', 'reason-string', 'bare']:
+        for extra in [0, 1]:
+            pr = inner(kind, extra)
+            pl = m.varint(len(pr)) + pr
+            crafted += [
+                ('publish', m.packet(0x30, m.mstr(b'a') + pl)),
+                ('publish1', m.packet(0x32, m.mstr(b'a') + m.u16(5) + pl)),
+                ('puback', m.packet(0x40, m.u16(1) + bytes([0]) + pl)),
+                ('pubrec', m.packet(0x50, m.u16(1) + bytes([0]) + pl)),
+                ('pubrel', m.packet(0x62, m.u16(1) + bytes([0]) + pl)),
+                ('pubcomp', m.packet(0x70, m.u16(1) + bytes([0]) + pl)),
+                ('suback', m.packet(0x90, m.u16(1) + pl)),
+                ('unsuback', m.packet(0xb0, m.u16(1) + pl)),
+                ('disconnect', m.packet(0xe0, bytes([0x8b]) + pl)),
+                ('connack', m.packet(0x20, bytes([0, 0]) + pl)),
+                ('auth', m.packet(0xf0, bytes([0x18]) + pl)),
+            ]
+    for j, (nm, pkt) in enumerate(crafted):
+        for phase in ([0, 2] if nm in ('connack', 'auth') else [2]):
+            s = Sess(f'c04-inner-{nm}-{j}-{phase}')
+            if phase == 0:
+                s.add('SETUP')
+                s.add('CONNECT cid=63')
+            else:
+                s.connect()
+                s.publish(1)
+            s.feed(pkt)
+            s.feed(m.pingresp())
+            out.append(s.script())
     # (4) transport faults at every byte offset of a short session
     sess_bytes = m.connack() + m.ack('puback', 1) + m.pingresp()
     for cut in range(len(sess_bytes) + 1):
@@ -814,7 +876,8 @@ class Walk:
                          ('cs', lambda r: r.random() < 0.5), ('un', lambda r: b'u'), ('pw', lambda r: b'p')]:
                 if rng.random() < 0.25:
                     fields.append((k, g(rng)))
-        self.s.connect(fields, ps, via_auth=via_auth if via_auth is not None else rng.random() < 0.25)
+        self.s.connect(fields, ps, via_auth=via_auth if via_auth is not None else rng.random() < 0.25,
+                       sp=1 if rng.random() < 0.3 else 0)
         for h in range(1, clones):
             self.s.add(f'CLONE h0 h{h}')
             self.s.handles.append(h)
@@ -1372,6 +1435,17 @@ def burst_scripts(prefix, tier):
 
 def fam_C08(rng, tier):
     out = []
+    # a PUBLISH by topic alias: zero-length topic name plus the Topic Alias property (the client announced a Topic Alias
+    # Maximum); it is acknowledged like any other
+    s = Sess('c08-alias')
+    s.connect([('cid', b'c'), ('tam', 5)])
+    st, sid = s.subscribed_stream()
+    s.feed(m.publish(b'a', b'with-name', 1, 10, 0, 0, [(35, 1), (11, sid)]))
+    s.feed(m.publish(b'', b'by-alias-1', 1, 11, 0, 0, [(35, 1), (11, sid)]))
+    s.feed(m.publish(b'', b'by-alias-2', 2, 12, 0, 0, [(35, 1)]))
+    s.feed(m.publish(b'', b'by-alias-0', 0, None, 0, 0, [(35, 1), (11, sid)]))
+    s.feed(m.ack('pubrel', 12))
+    out.append(s.script())
     for M in [1, 2, 3, 4, 5]:
         s = Sess(f'c08-tinymax-{M}')
         s.connect(connack_ps=[(39, M)])
@@ -1651,7 +1725,8 @@ def fam_C12(rng, tier):
             s = Sess(f'c12-{kind}-{i}')
             i += 1
             ps = [(33, 2)] + ([(39, M)] if M is not None else [])
-            s.connect(connack_ps=ps, via_auth=(M is not None and M % 6 == 1) or (M is None and kind in ('pub1', 'sub')))
+            s.connect(connack_ps=ps, via_auth=(M is not None and M % 6 == 1) or (M is None and kind in ('pub1', 'sub')),
+                      sp=1 if (M is not None and M % 5 == 2) else 0)
             if kind.startswith('pub'):
                 s.publish(int(kind[3]), fields=[('p', b'0123456789'), ('up', (b'k', b'v'))], topic=b'topic/x')
             elif kind == 'sub':
@@ -1883,6 +1958,8 @@ def fam_C13(rng, tier):
     # first response mapping for connect()/authorize()
     for call in ['CONNECT cid=63', 'AUTHORIZE r=24 am=6d ad=64', 'CONNECT cid=63 am=6d ad=64']:
         for j, resp in enumerate([m.connack(), m.connack(1, 0, [(33, 3)]), m.connack(0, 0x86, [(31, b'bad')]),
+                                  m.connack(0, 0x87, [(41, 0), (31, b'no')]), m.connack(0, 0x80, [(41, 0)]),
+                                  m.connack(0, 0x95, [(39, 5), (41, 1), (17, 9)]),
                                   m.auth(0x18, [(21, b'm'), (22, b'x')]), m.auth(0x18, [(21, b'm')]), None, 'err',
                                   m.pingresp(), b'\x20\x02\x00']):
             s = Sess(f'c13-first-{i}')
@@ -1996,6 +2073,29 @@ def fam_C14(rng, tier):
             s.add('RELEASE ctx')
             s.add(f'POLL op{op}')
             out.append(s.script())
+    for kinds2 in [['pub0'], ['pub1'], ['pub2'], ['sub'], ['unsub'], ['ping'], ['disc'], ['pub1', 'sub', 'ping', 'pub0']]:
+        s = Sess('c14-behind-disc-' + '-'.join(kinds2))
+        s.connect()
+        s.add('CLONE h0 h1')
+        s.add('HOLD ctx')
+        s.disconnect([('r', 0)], h=0)
+        ops2 = []
+        for k2 in kinds2:
+            if k2.startswith('pub'):
+                ops2.append(s.publish(int(k2[3]), 1)[0])
+            elif k2 == 'sub':
+                ops2.append(s.subscribe(h=1)[0])
+            elif k2 == 'unsub':
+                ops2.append(s.unsubscribe(h=1)[0])
+            elif k2 == 'ping':
+                ops2.append(s.ping(1))
+            else:
+                ops2.append(s.disconnect([('r', 4)], h=1))
+        s.add('RELEASE ctx')          # run() writes the DISCONNECT and returns Ok; the others were never handled
+        s.add('DROPCTX')
+        for o in ops2:
+            s.add(f'POLL op{o}')
+        out.append(s.script())
     for kind in ['pub1', 'pub2-rec', 'pub2-comp', 'sub', 'unsub', 'ping', 'pub0']:
         for failing in [False, True]:
             s = Sess(f'c14-held-{kind}-{int(failing)}')
